@@ -417,7 +417,10 @@ pub async fn run_scenario(sc: &HScenario, keep_log: bool) -> RunRecord {
 
     let trace: SharedTrace = Arc::new(Mutex::new(vec![]));
     let lifecycle = ProgLifecycle { trace: trace.clone(), table: Arc::new(sc.table()) };
-    let model = AgentModel::new(ProgAgent::default, lifecycle.into_lifecycle());
+    let model = AgentModel::new(
+        ProgAgent::default,
+        super::model::WithInit { inner: lifecycle.into_lifecycle(), trace: trace.clone(), open_dyn: sc.dyn_on_init },
+    );
     let (att_tx, att_rx) = mpsc::channel(k.att_queue.max(1) as usize);
     let (http_tx, http_rx) = mpsc::channel(4);
     let (link_tx, link_rx) = mpsc::channel(8);
